@@ -31,6 +31,23 @@ func verifHarnessC13() {
 	db, err := Open(opts)
 	verifAssert(err == nil, "C13.open-err")
 	dir := opts.DirPath
+	if verifParam("torntail") == 1 {
+		// the history starts on a database that has just recovered from a power loss: an unsynced Put was cut at
+		// a solver-chosen length, the recovering Open dropped the torn tail; the policy must hold from then on
+		// (whatever per-file state recovery left behind)
+		verifAssert(db.Close() == nil, "C13.close-err")
+		o0 := opts
+		o0.SyncStrategy = No // the write that gets torn is an unsynced one of an earlier session
+		db0, err := Open(o0)
+		verifAssert(err == nil, "C13.open0-err")
+		verifAssert(db0.Put(kp.keys[0], verifValue("tv")) == nil, "C13.torn-put-err")
+		verifCrashNow(true)
+		db, err = Open(opts)
+		verifAssert(err == nil, "C13.recovery-open-err")
+		if verifFSTornFiles() > 0 {
+			verifReach("recovered-from-torn-tail")
+		}
+	}
 	ops := vOpsFromMask(verifParam("ops"))
 	for step := 0; step < K; step++ {
 		switch ops[verifChoice("op", len(ops))] {
